@@ -8,6 +8,7 @@
 -/
 import Saltpack.Model.Classify
 import Saltpack.Proofs.ArmorLemmas
+import Saltpack.Proofs.ClassifyCodec
 
 namespace Saltpack.Proofs
 open Saltpack
@@ -108,9 +109,12 @@ theorem fewWords_length_le (s : Bytes) (hs : s.getLast? ≠ some Armor.space)
 
 /-! ### `binarySlice`: the only `unmodelled` reasons -/
 
-/-- the only `unmodelled` reasons of `IsSaltpackBinarySlice`'s model: the three
-    shapes for which the model does not claim to know go-codec's answer (none
-    of them is a panic) -/
+/-- the only `unmodelled` reasons of `IsSaltpackBinarySlice`'s model: one per
+    go-codec call, given when `Model/Codec.lean` does not claim to know that
+    call's answer (none of them is a panic; the format-name and message-type
+    decoders have no such case, so in effect "version shape": a surplus version
+    element / unknown map key whose `swallow` meets one of `Codec`'s unmodelled
+    generic-map cases) -/
 theorem binarySlice_unmodelled (b : Bytes) :
     ∀ w, Classify.binarySlice b = .unmodelled w →
       w = "message type shape" ∨ w = "version shape" ∨ w = "format name shape" := by
@@ -118,7 +122,9 @@ theorem binarySlice_unmodelled (b : Bytes) :
   unfold Classify.binarySlice
   repeat' (first | split | dsimp only)
   all_goals intro h
-  all_goals first | (cases h; done) | (cases h; simp; done)
+  all_goals first
+    | exact CodecMono.binBody_unmodelled _ _ h
+    | (cases h; done)
 
 theorem binarySlice_no_logic_error (b : Bytes) :
     Classify.binarySlice b ≠ .unmodelled "logic error in ClassifyStream" := by
